@@ -47,13 +47,20 @@ Proof.
   apply Z.eqb_eq in H. auto.
 Qed.
 
+Lemma key_eqb_rank' : forall key k, key_eqb key k = true -> key_rank k = key_rank key.
+Proof.
+  intros [[r kind] label] k H. apply key_eqb_rank in H. exact H.
+Qed.
+
 (* ------------------------------------------------------------------ per-trace facts *)
 Definition empty_t (t : tstate) : Prop :=
   t_pending t = [] /\ t_written t = [] /\ t_memrows t = [].
 
-(* a trace whose rank is not registered has seen nothing *)
-Definition tr_inv (lo : list Z) (kt : tkey * tstate) : Prop :=
-  index_of (key_rank (fst kt)) lo = None -> empty_t (snd kt).
+(* a trace whose rank is neither registered nor matched to a registered rank has seen nothing *)
+Definition unknown (st : mstate) (q : Z) : Prop :=
+  index_of q (m_lo st) = None /\ lookup_rm q (m_rm st) = None.
+Definition tr_inv (st : mstate) (kt : tkey * tstate) : Prop :=
+  unknown st (key_rank (fst kt)) -> empty_t (snd kt).
 
 Lemma push_content : forall n d t,
   file_content (push_row n d t) = if t_file t then file_content t ++ [d] else file_content t.
@@ -70,10 +77,6 @@ Lemma push_mem : forall n d t,
   t_memrows (push_row n d t) = if t_mem t then t_memrows t ++ [d] else t_memrows t.
 Proof. reflexivity. Qed.
 
-Lemma push_flags : forall n d t,
-  t_file (push_row n d t) = t_file t /\ t_mem (push_row n d t) = t_mem t.
-Proof. intros; split; reflexivity. Qed.
-
 Lemma start_content : forall h t, empty_t t ->
   file_content (start_trace h t) = (if t_file t then [h] else [])
   /\ t_memrows (start_trace h t) = (if t_mem t then [h] else []).
@@ -82,15 +85,85 @@ Proof.
   rewrite Hp, Hm. destruct (t_file t), (t_mem t); auto.
 Qed.
 
-(* ------------------------------------------------------------------ two runs side by side *)
-Definition trel (lo : list Z) (a b : tkey * tstate) : Prop :=
-  fst a = fst b /\ t_file (snd a) = t_file (snd b)
-  /\ file_content (snd a) = file_content (snd b)
-  /\ tr_inv lo a /\ tr_inv lo b.
-
-Definition srel (s1 s2 : mstate) : Prop :=
+(* the counter part of a step does not look at the traces *)
+Definition ceq (s1 s2 : mstate) : Prop :=
   m_lo s1 = m_lo s2 /\ m_it s1 = m_it s2 /\ m_pt s1 = m_pt s2 /\ m_saved s1 = m_saved s2
-  /\ Forall2 (trel (m_lo s1)) (m_tr s1) (m_tr s2).
+  /\ m_rm s1 = m_rm s2.
+
+Lemma ceq_refl : forall s, ceq s s.
+Proof. intros. repeat split. Qed.
+Lemma ceq_sym : forall s1 s2, ceq s1 s2 -> ceq s2 s1.
+Proof. intros s1 s2 (A & B & C & D & E). repeat split; auto. Qed.
+Lemma unknown_ceq : forall s1 s2 q, ceq s1 s2 -> unknown s1 q -> unknown s2 q.
+Proof. intros s1 s2 q (H1 & _ & _ & _ & H5) [A B]. split; congruence. Qed.
+
+Definition mono (s s' : mstate) : Prop := forall q, unknown s' q -> unknown s q.
+
+(* how a step changes the trace lists of two runs that agree on the counter part: nothing,
+   the same row pushed to one known key, or the traces of one so far unknown rank started *)
+Inductive tr_change2 (n1 n2 : Z) (s1 s2 s1' s2' : mstate) : Prop :=
+| tc_same : m_tr s1' = m_tr s1 -> m_tr s2' = m_tr s2 -> mono s1 s1' -> tr_change2 n1 n2 s1 s2 s1' s2'
+| tc_push : forall key d, (~ unknown s1 (key_rank key)) ->
+    m_tr s1' = map_key (key_eqb key) (push_row n1 d) (m_tr s1) ->
+    m_tr s2' = map_key (key_eqb key) (push_row n2 d) (m_tr s2) ->
+    mono s1 s1' -> tr_change2 n1 n2 s1 s2 s1' s2'
+| tc_start : forall r h, unknown s1 r -> (~ unknown s1' r) ->
+    (exists i, (i < length (m_lo s1'))%nat /\ h = header (m_lo s1') i) ->
+    m_tr s1' = map_key (fun k => key_rank k =? r) (start_trace h) (m_tr s1) ->
+    m_tr s2' = map_key (fun k => key_rank k =? r) (start_trace h) (m_tr s2) ->
+    mono s1 s1' -> tr_change2 n1 n2 s1 s2 s1' s2'.
+
+Lemma step_change2 : forall n1 n2 e s1 s2, ceq s1 s2 ->
+  ceq (step n1 s1 e) (step n2 s2 e) /\ tr_change2 n1 n2 s1 s2 (step n1 s1 e) (step n2 s2 e).
+Proof.
+  intros n1 n2 e s1 s2 (A & B & C & D & E).
+  assert (M0 : mono s1 s1) by (intros q H; exact H).
+  destruct e; cbn [step]; unfold add_use, add_use_m, aidx; rewrite <- ?A, <- ?E, <- ?B, <- ?C, <- ?D.
+  - destruct (index_of r (m_lo s1)) eqn:E1; [split; [repeat split; auto|apply tc_same; auto]|].
+    destruct (lookup_rm r (m_rm s1)) eqn:E2; [split; [repeat split; auto|apply tc_same; auto]|].
+    split; [repeat split; cbn; congruence|].
+    eapply tc_start with (r := r); [split; auto| | |reflexivity|reflexivity|].
+    + intros [H _]. cbn in H. rewrite index_of_app_self in H by auto. discriminate.
+    + exists (length (m_lo s1)). cbn [m_lo]. split; [rewrite app_length; cbn; lia|reflexivity].
+    + intros q [H1 H2]. cbn in *. split; auto. eapply index_of_app_none; eauto.
+  - destruct (index_of r (m_lo s1)) eqn:E1; [|split; [repeat split; auto|apply tc_same; auto]].
+    split; [repeat split; cbn; congruence|].
+    eapply tc_push with (key := (r, kind, label)); [|reflexivity|reflexivity|exact M0].
+    intros [H _]. cbn in H. congruence.
+  - destruct (index_of r (m_lo s1)); (split; [repeat split; cbn; congruence|apply tc_same; auto]).
+  - destruct (index_of r (m_lo s1)); (split; [repeat split; cbn; congruence|apply tc_same; auto]).
+  - split; [repeat split; cbn; congruence|apply tc_same; auto].
+  - destruct (index_of r (m_lo s1)); (split; [repeat split; cbn; congruence|apply tc_same; auto]).
+  - destruct (index_of r (m_lo s1)) eqn:E1; [|split; [repeat split; auto|apply tc_same; auto]].
+    split; [repeat split; cbn; congruence|].
+    eapply tc_push with (key := (r, kind, label)); [|reflexivity|reflexivity|exact M0].
+    intros [H _]. cbn in H. congruence.
+  - destruct (index_of r (m_lo s1)) eqn:E0; [|split; [repeat split; auto|apply tc_same; auto]].
+    destruct (index_of src (m_lo s1)) eqn:E1; [split; [repeat split; auto|apply tc_same; auto]|].
+    destruct (lookup_rm src (m_rm s1)) eqn:E2; [split; [repeat split; auto|apply tc_same; auto]|].
+    split; [repeat split; cbn; congruence|].
+    eapply tc_start with (r := src); [split; auto| | |reflexivity|reflexivity|].
+    + intros [_ H]. cbn in H. rewrite Z.eqb_refl in H. discriminate.
+    + exists n. cbn [m_lo]. split; [eapply index_of_lt; eauto|reflexivity].
+    + intros q [H1 H2]. cbn in *. split; auto. destruct (q =? src); [discriminate|auto].
+  - destruct (lookup_rm r (m_rm s1)) eqn:E1; [|split; [repeat split; auto|apply tc_same; auto]].
+    destruct (index_of z (m_lo s1)) eqn:E2; [|split; [repeat split; auto|apply tc_same; auto]].
+    split; [repeat split; cbn; congruence|].
+    eapply tc_push with (key := (r, kind, label)); [|reflexivity|reflexivity|exact M0].
+    intros [_ H]. cbn in H. congruence.
+  - destruct (lookup_rm r (m_rm s1)) eqn:E1; [|split; [repeat split; auto|apply tc_same; auto]].
+    destruct (index_of z (m_lo s1)) eqn:E2; [|split; [repeat split; auto|apply tc_same; auto]].
+    split; [repeat split; cbn; congruence|].
+    eapply tc_push with (key := (r, kind, label)); [|reflexivity|reflexivity|exact M0].
+    intros [_ H]. cbn in H. congruence.
+  - destruct (lookup_rm r (m_rm s1)); [|split; [repeat split; auto|apply tc_same; auto]].
+    destruct (index_of z (m_lo s1)); (split; [repeat split; cbn; congruence|apply tc_same; auto]).
+  - destruct (lookup_rm r (m_rm s1)); [|split; [repeat split; auto|apply tc_same; auto]].
+    destruct (index_of z (m_lo s1)); (split; [repeat split; cbn; congruence|apply tc_same; auto]).
+Qed.
+
+Lemma step_change : forall n e st, tr_change2 n n st st (step n st e) (step n st e).
+Proof. intros. apply (step_change2 n n e st st (ceq_refl st)). Qed.
 
 Lemma Forall2_map_key : forall (R R' : tkey * tstate -> tkey * tstate -> Prop) P f g l1 l2,
   Forall2 R l1 l2 ->
@@ -104,60 +177,50 @@ Proof.
   destruct (P (fst a)) eqn:E; auto.
 Qed.
 
-Lemma add_use_srel : forall n1 n2 s1 s2 r c pos kind label stamp,
-  srel s1 s2 -> srel (add_use n1 s1 r c pos kind label stamp) (add_use n2 s2 r c pos kind label stamp).
-Proof.
-  intros n1 n2 s1 s2 r c pos kind label stamp (Hlo & Hit & Hpt & Hsv & Htr).
-  unfold add_use. rewrite <- Hlo. destruct (index_of r (m_lo s1)) as [i|] eqn:Ei.
-  2:{ repeat split; auto. }
-  rewrite <- Hpt. split; [|split; [|split; [|split]]]; cbn [m_lo m_it m_pt m_saved m_tr]; auto.
-  eapply Forall2_map_key; [exact Htr| | |].
-  - intros a b (Hk & Hf & Hc & Ia & Ib) HP. unfold trel. cbn [fst snd].
-    split; [|split; [|split; [|split]]]; auto.
-    + rewrite !push_content, Hf, Hc. reflexivity.
-    + intros Hn. cbn [fst snd] in Hn. rewrite (key_eqb_rank _ _ _ _ HP) in Hn. congruence.
-    + intros Hn. cbn [fst snd] in Hn. rewrite <- Hk, (key_eqb_rank _ _ _ _ HP) in Hn. congruence.
-  - intros a b H _. exact H.
-  - intros a b H. apply H.
-Qed.
+(* ------------------------------------------------------------------ two runs side by side *)
+Definition trel (s1 s2 : mstate) (a b : tkey * tstate) : Prop :=
+  fst a = fst b /\ t_file (snd a) = t_file (snd b)
+  /\ file_content (snd a) = file_content (snd b)
+  /\ tr_inv s1 a /\ tr_inv s2 b.
 
-Lemma tr_inv_app : forall lo x kt, tr_inv lo kt -> tr_inv (lo ++ [x]) kt.
-Proof. intros lo x kt H Hn. apply H. eapply index_of_app_none; eauto. Qed.
-
-Lemma trel_weaken : forall lo lo' l1 l2,
-  (forall kt, tr_inv lo kt -> tr_inv lo' kt) ->
-  Forall2 (trel lo) l1 l2 -> Forall2 (trel lo') l1 l2.
-Proof.
-  intros lo lo' l1 l2 W H. induction H as [|a b l1 l2 (Hk & Hf & Hc & Ia & Ib) H IH]; constructor; auto.
-  split; [|split; [|split; [|split]]]; auto.
-Qed.
+Definition srel (s1 s2 : mstate) : Prop :=
+  ceq s1 s2 /\ Forall2 (trel s1 s2) (m_tr s1) (m_tr s2).
 
 Lemma step_srel : forall n1 n2 e s1 s2, srel s1 s2 -> srel (step n1 s1 e) (step n2 s2 e).
 Proof.
-  intros n1 n2 e s1 s2 H. pose proof H as (Hlo & Hit & Hpt & Hsv & Htr).
-  destruct e; cbn [step].
-  - (* EReg *)
-    rewrite <- Hlo. destruct (index_of r (m_lo s1)) eqn:Ei; [exact H|].
-    split; [|split; [|split; [|split]]]; cbn [m_lo m_it m_pt m_saved m_tr]; try congruence.
-    eapply Forall2_map_key; [exact Htr| | |].
-    + intros a b (Hk & Hf & Hc & Ia & Ib) HP. apply Z.eqb_eq in HP.
-      assert (Ea : empty_t (snd a)) by (apply Ia; rewrite HP; exact Ei).
-      assert (Eb : empty_t (snd b)) by (apply Ib; rewrite <- Hk, HP; exact Ei).
-      unfold trel. cbn [fst snd m_lo]. try rewrite <- Hlo.
-      destruct (start_content (header (m_lo s1 ++ [r]) (length (m_lo s1))) _ Ea) as [Ca _].
-      destruct (start_content (header (m_lo s1 ++ [r]) (length (m_lo s1))) _ Eb) as [Cb _].
+  intros n1 n2 e s1 s2 [Hc Htr]. destruct (step_change2 n1 n2 e s1 s2 Hc) as [Hc' Hch].
+  split; [exact Hc'|].
+  set (s1' := step n1 s1 e) in *. set (s2' := step n2 s2 e) in *.
+  assert (Keep : forall a b, trel s1 s2 a b -> mono s1 s1' -> trel s1' s2' a b).
+  { intros a b (Hk & Hf & Hcn & Ia & Ib) Hu. split; [|split; [|split; [|split]]]; auto.
+    - intros U. apply Ia, Hu, U.
+    - intros U. apply Ib. eapply unknown_ceq; [exact Hc|]. apply Hu.
+      eapply unknown_ceq; [apply ceq_sym; exact Hc'|]. exact U. }
+  destruct Hch as [E1 E2 Hu|key d Hkn E1 E2 Hu|r h Hu1 Hk1 _ E1 E2 Hu]; rewrite E1, E2.
+  - clear E1 E2. induction Htr as [|a b l1 l2 Hab Htr IH]; constructor; auto.
+  - eapply Forall2_map_key; [exact Htr| | |].
+    + intros a b (Hk & Hf & Hcn & Ia & Ib) HP.
+      apply key_eqb_rank' in HP. unfold trel, tr_inv. cbn [fst snd].
+      split; [|split; [|split; [|split]]]; auto.
+      * rewrite !push_content, Hf, Hcn. reflexivity.
+      * intros U. exfalso. apply Hkn. rewrite <- HP. apply Hu. exact U.
+      * intros U. exfalso. apply Hkn. rewrite <- HP. apply Hu.
+        eapply unknown_ceq; [apply ceq_sym; exact Hc'|]. rewrite <- Hk in U. exact U.
+    + intros a b Hab _. apply Keep; auto.
+    + intros a b Hab. apply Hab.
+  - eapply Forall2_map_key; [exact Htr| | |].
+    + intros a b (Hk & Hf & Hcn & Ia & Ib) HP. apply Z.eqb_eq in HP. unfold trel, tr_inv. cbn [fst snd].
+      assert (Ea : empty_t (snd a)) by (apply Ia; rewrite HP; exact Hu1).
+      assert (Eb : empty_t (snd b)).
+      { apply Ib. rewrite <- Hk, HP. eapply unknown_ceq; [exact Hc|exact Hu1]. }
+      destruct (start_content h _ Ea) as [Ca _]. destruct (start_content h _ Eb) as [Cb _].
       split; [|split; [|split; [|split]]]; auto.
       * rewrite Ca, Cb, Hf. reflexivity.
-      * intros Hn. cbn [fst snd] in Hn. rewrite HP, index_of_app_self in Hn by auto. discriminate.
-      * intros Hn. cbn [fst snd] in Hn. rewrite <- Hk, HP, index_of_app_self in Hn by auto. discriminate.
-    + intros a b (Hk & Hf & Hc & Ia & Ib) _. split; [|split; [|split; [|split]]]; auto using tr_inv_app.
+      * intros U. exfalso. apply Hk1. rewrite HP in U. exact U.
+      * intros U. exfalso. apply Hk1. rewrite <- Hk, HP in U.
+        eapply unknown_ceq; [apply ceq_sym; exact Hc'|exact U].
+    + intros a b Hab _. apply Keep; auto.
     + intros a b Hab. apply Hab.
-  - rewrite Hit. apply add_use_srel; auto.
-  - rewrite <- Hlo. destruct (index_of r (m_lo s1)); [|exact H]. repeat split; cbn; congruence.
-  - rewrite <- Hlo. destruct (index_of r (m_lo s1)); [|exact H]. repeat split; cbn; congruence.
-  - repeat split; cbn; congruence.
-  - rewrite <- Hlo. destruct (index_of r (m_lo s1)); [|exact H]. repeat split; cbn; congruence.
-  - rewrite Hsv. apply add_use_srel; auto.
 Qed.
 
 Lemma exec_srel : forall n1 n2 evs s1 s2, srel s1 s2 -> srel (exec n1 s1 evs) (exec n2 s2 evs).
@@ -169,16 +232,16 @@ Qed.
 Lemma init_srel : forall keys f m m',
   srel (init_state keys f m) (init_state keys f m').
 Proof.
-  intros keys f m m'. repeat split; cbn; auto.
+  intros keys f m m'. split; [repeat split; reflexivity|]. cbn [m_tr init_state].
   induction keys as [|k keys IH]; cbn; constructor; auto.
-  repeat split; cbn; auto.
+  split; [|split; [|split; [|split]]]; cbn; auto; intros _; repeat split; reflexivity.
 Qed.
 
-Lemma find_trel : forall lo k l1 l2, Forall2 (trel lo) l1 l2 ->
+Lemma find_trel : forall s1 s2 k l1 l2, Forall2 (trel s1 s2) l1 l2 ->
   option_map (fun kt => file_content (snd kt)) (find (fun kt => key_eqb k (fst kt)) l1)
   = option_map (fun kt => file_content (snd kt)) (find (fun kt => key_eqb k (fst kt)) l2).
 Proof.
-  intros lo k l1 l2 H. induction H as [|a b l1 l2 (Hk & Hf & Hc & _) H IH]; cbn; auto.
+  intros s1 s2 k l1 l2 H. induction H as [|a b l1 l2 (Hk & Hf & Hc & _) H IH]; cbn; auto.
   rewrite <- Hk. destruct (key_eqb k (fst a)); cbn; auto. rewrite Hc. reflexivity.
 Qed.
 
@@ -190,16 +253,11 @@ Theorem file_content_indep : forall n1 n2 keys f m m' evs k,
   = option_map (fun kt => file_content (snd kt))
     (find (fun kt => key_eqb k (fst kt)) (m_tr (exec n2 (init_state keys f m') evs))).
 Proof.
-  intros. pose proof (exec_srel n1 n2 evs _ _ (init_srel keys f m m')) as (_ & _ & _ & _ & H).
+  intros. pose proof (exec_srel n1 n2 evs _ _ (init_srel keys f m m')) as [_ H].
   eapply find_trel; eauto.
 Qed.
 
-(* ------------------------------------------------------------------ consumable = file *)
-Definition minv (st : mstate) : Prop :=
-  Forall (fun kt => tr_inv (m_lo st) kt
-                    /\ (t_file (snd kt) = true -> t_mem (snd kt) = true ->
-                        t_memrows (snd kt) = file_content (snd kt))) (m_tr st).
-
+(* ------------------------------------------------------------------ one run: invariants *)
 Lemma Forall_map_key : forall (Q Q' : tkey * tstate -> Prop) P f l,
   Forall Q l ->
   (forall a, Q a -> P (fst a) = true -> Q' (fst a, f (snd a))) ->
@@ -210,34 +268,29 @@ Proof.
   destruct (P (fst a)) eqn:E; auto.
 Qed.
 
-Lemma add_use_minv : forall n s r c pos kind label stamp,
-  minv s -> minv (add_use n s r c pos kind label stamp).
-Proof.
-  intros n s r c pos kind label stamp H. unfold add_use.
-  destruct (index_of r (m_lo s)) as [i|] eqn:Ei; [|exact H].
-  unfold minv. cbn [m_tr m_lo]. eapply Forall_map_key; [exact H| |].
-  - intros a (Ia & Ma) HP. cbn [fst snd]. split.
-    + intros Hn. cbn [fst snd] in Hn. rewrite (key_eqb_rank _ _ _ _ HP) in Hn. congruence.
-    + intros Hf Hm. change (t_file (snd a) = true) in Hf. change (t_mem (snd a) = true) in Hm. rewrite push_content, push_mem. rewrite Hf, Hm, Ma; auto.
-  - intros a Ha _. exact Ha.
-Qed.
+Definition minv (st : mstate) : Prop :=
+  Forall (fun kt => tr_inv st kt
+                    /\ (t_file (snd kt) = true -> t_mem (snd kt) = true ->
+                        t_memrows (snd kt) = file_content (snd kt))) (m_tr st).
 
-Lemma step_minv : forall n e s, minv s -> minv (step n s e).
+Lemma step_minv : forall n e st, minv st -> minv (step n st e).
 Proof.
-  intros n e s H. destruct e; cbn [step]; try (apply add_use_minv; exact H).
-  - destruct (index_of r (m_lo s)) eqn:Ei; [exact H|].
-    unfold minv. cbn [m_tr m_lo]. eapply Forall_map_key; [exact H| |].
-    + intros a (Ia & Ma) HP. apply Z.eqb_eq in HP. cbn [fst snd m_lo].
-      assert (Ea : empty_t (snd a)) by (apply Ia; rewrite HP; exact Ei).
-      destruct (start_content (header (m_lo s ++ [r]) (length (m_lo s))) _ Ea) as [Ca Cm].
-      split.
-      * intros Hn. cbn [fst snd] in Hn. rewrite HP, index_of_app_self in Hn by auto. discriminate.
-      * intros Hf Hm. change (t_file (snd a) = true) in Hf. change (t_mem (snd a) = true) in Hm. rewrite Ca, Cm, Hf, Hm. reflexivity.
-    + intros a (Ia & Ma) _. split; auto using tr_inv_app.
-  - destruct (index_of r (m_lo s)); exact H.
-  - destruct (index_of r (m_lo s)); exact H.
-  - exact H.
-  - destruct (index_of r (m_lo s)); exact H.
+  intros n e st H. unfold minv in *. destruct (step_change n e st) as [E _ Hu|key d Hk E _ Hu|r h Hu1 Hk1 Hh E _ Hu]; rewrite E.
+  - eapply Forall_impl; [|exact H]. intros kt [I M]. split; auto. intros U. apply I, Hu, U.
+  - eapply Forall_map_key; [exact H| |].
+    + intros a (Ia & Ma) HP. apply key_eqb_rank' in HP. cbn [fst snd]. split.
+      * intros U. exfalso. apply Hk. rewrite <- HP. apply Hu. exact U.
+      * intros Hf Hm. change (t_file (snd a) = true) in Hf. change (t_mem (snd a) = true) in Hm.
+        rewrite push_content, push_mem, Hf, Hm, Ma; auto.
+    + intros a (Ia & Ma) _. split; auto. intros U. apply Ia, Hu, U.
+  - eapply Forall_map_key; [exact H| |].
+    + intros a (Ia & Ma) HP. apply Z.eqb_eq in HP. cbn [fst snd].
+      assert (Ea : empty_t (snd a)) by (apply Ia; rewrite HP; exact Hu1).
+      destruct (start_content h _ Ea) as [Ca Cm]. split.
+      * intros U. exfalso. apply Hk1. cbn [fst] in U. rewrite HP in U. exact U.
+      * intros Hf Hm. change (t_file (snd a) = true) in Hf. change (t_mem (snd a) = true) in Hm.
+        rewrite Ca, Cm, Hf, Hm. reflexivity.
+    + intros a (Ia & Ma) _. split; auto. intros U. apply Ia, Hu, U.
 Qed.
 
 Lemma exec_minv : forall n evs s, minv s -> minv (exec n s evs).
@@ -268,23 +321,11 @@ Qed.
 Definition finv (f m : bool) (st : mstate) : Prop :=
   Forall (fun kt => t_file (snd kt) = f /\ t_mem (snd kt) = m) (m_tr st).
 
-Lemma add_use_finv : forall f m n s r c pos kind label stamp,
-  finv f m s -> finv f m (add_use n s r c pos kind label stamp).
-Proof.
-  intros f m n s r c pos kind label stamp H. unfold add_use.
-  destruct (index_of r (m_lo s)); [|exact H].
-  unfold finv; cbn [m_tr]; eapply Forall_map_key; [exact H| |]; intros a Ha; auto.
-Qed.
-
 Lemma step_finv : forall f m n e s, finv f m s -> finv f m (step n s e).
 Proof.
-  intros f m n e s H. destruct e; cbn [step]; try (apply add_use_finv; exact H).
-  - destruct (index_of r (m_lo s)); [exact H|].
-    unfold finv; cbn [m_tr]; eapply Forall_map_key; [exact H| |]; intros a Ha; auto.
-  - destruct (index_of r (m_lo s)); exact H.
-  - destruct (index_of r (m_lo s)); exact H.
-  - exact H.
-  - destruct (index_of r (m_lo s)); exact H.
+  intros f m n e st H. unfold finv in *.
+  destruct (step_change n e st) as [E _ Hu|key d Hk E _ Hu|r h Hu1 Hk1 Hh E _ Hu]; rewrite E; auto;
+    (eapply Forall_map_key; [exact H| |]; intros a Ha; auto).
 Qed.
 
 Lemma exec_finv : forall f m n evs s, finv f m s -> finv f m (exec n s evs).
@@ -297,78 +338,17 @@ Proof.
 Qed.
 
 (* ------------------------------------------------------------------ header *)
-Definition hinv (st : mstate) : Prop :=
-  Forall (fun kt => t_file (snd kt) = true ->
-            match index_of (key_rank (fst kt)) (m_lo st) with
-            | None => file_content (snd kt) = [] /\ empty_t (snd kt)
-            | Some i => exists rows, file_content (snd kt) = header (m_lo st) i :: rows
-            end) (m_tr st).
-
 Lemma header_app : forall lo x i, (i < length lo)%nat -> header (lo ++ [x]) i = header lo i.
 Proof.
   intros lo x i H. unfold header. rewrite firstn_app.
   replace (S i - length lo)%nat with O by lia. cbn. rewrite app_nil_r. reflexivity.
 Qed.
 
-Lemma add_use_hinv : forall n s r c pos kind label stamp,
-  hinv s -> hinv (add_use n s r c pos kind label stamp).
+Lemma step_lo : forall n e st,
+  m_lo (step n st e) = m_lo st \/ exists x, m_lo (step n st e) = m_lo st ++ [x].
 Proof.
-  intros n s r c pos kind label stamp H. unfold add_use.
-  destruct (index_of r (m_lo s)) as [i|] eqn:Ei; [|exact H].
-  unfold hinv. cbn [m_tr m_lo]. eapply Forall_map_key; [exact H| |].
-  - intros a Ha HP Hf. cbn [fst snd m_lo] in *. change (t_file (snd a) = true) in Hf. specialize (Ha Hf).
-    rewrite (key_eqb_rank _ _ _ _ HP) in *. rewrite Ei in *.
-    destruct Ha as (rows & Hr). rewrite push_content, Hf, Hr. eexists. reflexivity.
-  - intros a Ha _. exact Ha.
+  intros n e st. destruct e; cbn [step]; unfold add_use, add_use_m, aidx;
+    repeat match goal with |- context [match ?x with _ => _ end] => destruct x end; auto.
+  right. eexists. reflexivity.
 Qed.
 
-Lemma step_hinv : forall n e s, hinv s -> hinv (step n s e).
-Proof.
-  intros n e s H. destruct e; cbn [step]; try (apply add_use_hinv; exact H).
-  - destruct (index_of r (m_lo s)) eqn:Ei; [exact H|].
-    unfold hinv. cbn [m_tr m_lo]. eapply Forall_map_key; [exact H| |].
-    + intros a Ha HP Hf. apply Z.eqb_eq in HP. cbn [fst snd m_lo] in *. change (t_file (snd a) = true) in Hf. specialize (Ha Hf).
-      rewrite HP in *. rewrite Ei in Ha. destruct Ha as (_ & Ea).
-      rewrite index_of_app_self by auto.
-      destruct (start_content (header (m_lo s ++ [r]) (length (m_lo s))) _ Ea) as [Ca _].
-      rewrite Ca, Hf. eexists. reflexivity.
-    + intros a Ha HP Hf. specialize (Ha Hf). apply Z.eqb_neq in HP.
-      destruct (index_of (key_rank (fst a)) (m_lo s)) as [i|] eqn:Ea.
-      * rewrite (index_of_app_some _ _ _ _ Ea). rewrite header_app; auto.
-        eapply index_of_lt; eauto.
-      * assert (index_of (key_rank (fst a)) (m_lo s ++ [r]) = None) as ->; auto.
-        clear - Ea HP. induction (m_lo s) as [|y lo IH]; cbn in *.
-        { destruct (r =? key_rank (fst a)) eqn:E; auto. apply Z.eqb_eq in E. congruence. }
-        destruct (y =? key_rank (fst a)); [discriminate|].
-        destruct (index_of (key_rank (fst a)) lo); [discriminate|]. rewrite IH; auto.
-  - destruct (index_of r (m_lo s)); exact H.
-  - destruct (index_of r (m_lo s)); exact H.
-  - exact H.
-  - destruct (index_of r (m_lo s)); exact H.
-Qed.
-
-Lemma exec_hinv : forall n evs s, hinv s -> hinv (exec n s evs).
-Proof. induction evs as [|e evs IH]; intros s H; cbn; auto. apply IH, step_hinv, H. Qed.
-
-Lemma init_hinv : forall keys f m, hinv (init_state keys f m).
-Proof.
-  intros. unfold hinv. cbn. apply Forall_forall. intros kt Hin.
-  apply in_map_iff in Hin. destruct Hin as (k & <- & _). intros _. cbn.
-  repeat split; reflexivity.
-Qed.
-
-(* every file is empty (rank never registered) or starts with the header that names the loop
-   ranks down to the traced rank: [x_pos | x <- loop_order[:i+1]] ++ loop_order[:i+1] ++ [fiber_pos] *)
-Theorem header_first : forall n keys f m evs k t,
-  In (k, t) (m_tr (exec n (init_state keys f m) evs)) -> t_file t = true ->
-  match index_of (key_rank k) (m_lo (exec n (init_state keys f m) evs)) with
-  | None => file_content t = []
-  | Some i => exists rows,
-      file_content t = header (m_lo (exec n (init_state keys f m) evs)) i :: rows
-  end.
-Proof.
-  intros n keys f m evs k t Hin Hf.
-  pose proof (exec_hinv n evs _ (init_hinv keys f m)) as H.
-  unfold hinv in H. rewrite Forall_forall in H. specialize (H _ Hin Hf). cbn in H.
-  destruct (index_of (key_rank k) (m_lo (exec n (init_state keys f m) evs))); auto. apply H.
-Qed.
